@@ -32,6 +32,15 @@ type xl struct {
 	opaquePs []xlParam
 	touched  map[string]bool // flattened-receiver / opaque parameters referenced (loops capture them)
 	usesRec  bool            // a self-call was translated (translate_rec.go)
+	// translate_dom.go
+	optVars                      map[types.Object]bool // variables of Lean type `Option …` (may be nil)
+	paramObjs                    map[types.Object]bool
+	acc                          *types.Var // accumulator parameter (`res *[]T`)
+	inGroup                      map[*types.Func]bool
+	recPs                        []xlParam         // recursive callees of the current group (`rec_<fn>`)
+	dispatch                     map[string]string // interface method name -> dispatcher of the current group
+	flatKeys                     []string
+	goParamNames, leanParamNames []string // parameters by position (`$k` in fuel expressions)
 }
 
 type xlParam struct{ name, typ string }
@@ -148,7 +157,7 @@ func (x *xl) impure(e ast.Expr) bool {
 		switch y := n.(type) {
 		case *ast.IndexExpr, *ast.SliceExpr:
 			r = true
-		case *ast.StarExpr:
+		case *ast.StarExpr, *ast.TypeAssertExpr:
 			r = true
 		case *ast.CallExpr:
 			if x.calleeMonadic(y) {
@@ -265,12 +274,24 @@ func (x *xl) expr(e ast.Expr) ([]string, string, error) {
 		s, err := x.constant(e, tv)
 		return nil, s, err
 	}
+	if x.w.dom {
+		if s, ok := x.domNew(e); ok {
+			return nil, s, nil
+		}
+	}
 	switch y := e.(type) {
 	case *ast.ParenExpr:
 		return x.expr(y.X)
+	case *ast.TypeAssertExpr:
+		if x.w.dom {
+			return x.typeAssert(y)
+		}
 	case *ast.Ident:
 		switch o := info.Uses[y].(type) {
 		case *types.Var:
+			if x.w.dom && isDomPkgVar(o, "nilLeaf") {
+				return nil, "GoDom.nilLeaf", nil
+			}
 			if o.IsField() {
 				return nil, "", x.errf(e, "field identifier %s", y.Name)
 			}
@@ -315,6 +336,9 @@ func (x *xl) expr(e ast.Expr) ([]string, string, error) {
 		}
 		return nil, "", x.errf(e, "unary operator %s", y.Op)
 	case *ast.StarExpr:
+		if id, ok := y.X.(*ast.Ident); ok && x.acc != nil && info.Uses[id] == x.acc {
+			return nil, x.nameOf(x.acc), nil
+		}
 		b, s, err := x.expr(y.X)
 		if err != nil {
 			return nil, "", err
@@ -395,6 +419,36 @@ func (x *xl) expr(e ast.Expr) ([]string, string, error) {
 		if isBuilder(t) && len(y.Elts) == 0 {
 			return nil, "\"\"", nil
 		}
+		if st, ok := t.Underlying().(*types.Struct); ok && x.w.dom {
+			// a struct literal with every field given by name
+			sn, err := x.w.leanType(t)
+			if err != nil {
+				return nil, "", x.errf(e, "%v", err)
+			}
+			if len(y.Elts) != st.NumFields() {
+				return nil, "", x.errf(e, "struct literal that does not name every field")
+			}
+			var bs, fs []string
+			for _, el := range y.Elts {
+				kv, ok := el.(*ast.KeyValueExpr)
+				if !ok {
+					return nil, "", x.errf(e, "positional struct literal")
+				}
+				fid := kv.Key.(*ast.Ident)
+				var ft types.Type
+				for i := 0; i < st.NumFields(); i++ {
+					if st.Field(i).Name() == fid.Name {
+						ft = st.Field(i).Type()
+					}
+				}
+				b, v, err := x.exprTo(kv.Value, ft, false)
+				if err != nil {
+					return nil, "", err
+				}
+				bs, fs = append(bs, b...), append(fs, leanField(fid.Name)+" := "+v)
+			}
+			return bs, "({ " + strings.Join(fs, ", ") + " } : " + sn + ")", nil
+		}
 		return nil, "", x.errf(e, "composite literal of type %s", t)
 	}
 	return nil, "", x.errf(e, "expression %T", e)
@@ -402,6 +456,11 @@ func (x *xl) expr(e ast.Expr) ([]string, string, error) {
 
 func (x *xl) selector(y *ast.SelectorExpr) ([]string, string, error) {
 	info := x.p.info
+	if x.w.dom {
+		if b, s, ok, err := x.domField(y); ok || err != nil {
+			return b, s, err
+		}
+	}
 	if sel, ok := info.Selections[y]; ok && sel.Kind() == types.FieldVal {
 		// flattened receiver chain?
 		if x.f.Flatten {
@@ -429,6 +488,7 @@ func (x *xl) selector(y *ast.SelectorExpr) ([]string, string, error) {
 				}
 				n := x.fresh(x.recv.Name() + "_" + strings.Join(chain, "_"))
 				x.flat[key] = n
+				x.flatKeys = append(x.flatKeys, key)
 				x.touched[n] = true
 				x.flatPs = append(x.flatPs, xlParam{n, lt})
 				return nil, n, nil
@@ -444,7 +504,7 @@ func (x *xl) selector(y *ast.SelectorExpr) ([]string, string, error) {
 		if err != nil {
 			return nil, "", err
 		}
-		return b, s + "." + y.Sel.Name, nil
+		return b, s + "." + leanField(y.Sel.Name), nil
 	}
 	return nil, "", x.errf(y, "selector %s", y.Sel.Name)
 }
@@ -458,6 +518,45 @@ func (x *xl) binary(y *ast.BinaryExpr) ([]string, string, error) {
 			other = y.X
 		} else if isNilIdent(info, y.X) {
 			other = y.Y
+		}
+		if other != nil && x.w.dom && domKind(x.typeOf(other)) != "" {
+			b, s, err := x.expr(other)
+			if err != nil {
+				return nil, "", err
+			}
+			neg := ""
+			if y.Op == token.NEQ {
+				neg = "!"
+			}
+			if domKind(x.typeOf(other)) == "any" {
+				return b, "(" + neg + "(" + s + " == GoDom.anyNil))", nil
+			}
+			if !x.nullable(other) {
+				return nil, "", x.errf(y, "comparison with nil of a value the translation assumes non-nil (mark the parameter Nullable)")
+			}
+			if y.Op == token.EQL {
+				return b, s + ".isNone", nil
+			}
+			return b, s + ".isSome", nil
+		}
+		if other == nil && x.w.dom {
+			// n == nilLeaf
+			var o2 ast.Expr
+			if id, ok := y.Y.(*ast.Ident); ok && isDomPkgVar(info.Uses[id], "nilLeaf") {
+				o2 = y.X
+			} else if id, ok := y.X.(*ast.Ident); ok && isDomPkgVar(info.Uses[id], "nilLeaf") {
+				o2 = y.Y
+			}
+			if o2 != nil {
+				b, s, err := x.exprTo(o2, x.nodeType(), true)
+				if err != nil {
+					return nil, "", err
+				}
+				if y.Op == token.NEQ {
+					return b, "(!(GoDom.isNilLeaf " + s + "))", nil
+				}
+				return b, "(GoDom.isNilLeaf " + s + ")", nil
+			}
 		}
 		if other != nil {
 			t := x.typeOf(other)
@@ -632,6 +731,11 @@ func (x *xl) call(c *ast.CallExpr) ([]string, string, error) {
 			return nil, "", x.errf(c, "conversion")
 		}
 		from, to := x.typeOf(c.Args[0]), tv.Type
+		if x.w.dom {
+			if b, s, ok, err := x.domConversion(c, to); ok || err != nil {
+				return b, s, err
+			}
+		}
 		b, s, err := x.expr(c.Args[0])
 		if err != nil {
 			return nil, "", err
@@ -713,6 +817,37 @@ func (x *xl) call(c *ast.CallExpr) ([]string, string, error) {
 			return nil, "", x.errf(c, "builtin %s", bi.Name())
 		}
 	case *ast.SelectorExpr:
+		if x.w.dom {
+			if sel, ok := info.Selections[f]; ok && sel.Kind() == types.MethodVal {
+				if b, s, ok, err := x.domMethod(c, f); ok || err != nil {
+					return b, s, err
+				}
+			}
+			if sel, ok := info.Selections[f]; ok && sel.Kind() == types.FieldVal {
+				// a function-valued field of the flattened receiver
+				sig, ok := x.typeOf(f).Underlying().(*types.Signature)
+				if !ok {
+					return nil, "", x.errf(c, "call of a field that is not a function")
+				}
+				bs, fv, err := x.selector(f)
+				if err != nil {
+					return nil, "", err
+				}
+				if sig.Variadic() || len(c.Args) != sig.Params().Len() {
+					return nil, "", x.errf(c, "call of a function value: argument count")
+				}
+				args := []string{fv}
+				for i, a := range c.Args {
+					b, v, err := x.exprTo(a, sig.Params().At(i).Type(), false)
+					if err != nil {
+						return nil, "", err
+					}
+					bs, args = append(bs, b...), append(args, v)
+				}
+				bs, t := x.bindTmp(bs, strings.Join(args, " "))
+				return bs, t, nil
+			}
+		}
 		// methods of strings.Builder values / package-level regexps
 		if sel, ok := info.Selections[f]; ok && sel.Kind() == types.MethodVal {
 			rt := x.typeOf(f.X)
@@ -775,6 +910,12 @@ func (x *xl) call(c *ast.CallExpr) ([]string, string, error) {
 			"slices.Contains":   {"Go.slicesContains", 2},
 			"strconv.Atoi":      {"Go.atoi", 1},
 		}
+		if x.w.dom {
+			prims["github.com/google/go-cmp/cmp.Equal"] = struct {
+				lean  string
+				nargs int
+			}{"GoDom.cmpEqual", 2}
+		}
 		p, ok := prims[key]
 		if !ok || len(c.Args) != p.nargs {
 			return nil, "", x.errf(c, "call of %s", key)
@@ -784,6 +925,17 @@ func (x *xl) call(c *ast.CallExpr) ([]string, string, error) {
 			return nil, "", err
 		}
 		return bs, fmt.Sprintf("(%s %s)", p.lean, strings.Join(es, " ")), nil
+	}
+	if x.w.dom && x.f.External == "" {
+		isOpaque := false
+		for _, o := range x.f.Opaque {
+			if o == funcKey(fn) {
+				isOpaque = true
+			}
+		}
+		if !isOpaque {
+			return x.callWhitelisted(c, fn)
+		}
 	}
 	// whitelisted / opaque functions of the library
 	var argEs []ast.Expr
